@@ -62,6 +62,7 @@ def run(ctx):
         if rc != 0:
             ctx.tie_failures.append("driver model c12 failed: " + err[-200:])
             return
+        L.monitor_accepts_model(ctx, "c12", model)
         diffs = L.diff_cases(impl, model)
         if diffs:
             d = diffs[0]
